@@ -17,10 +17,11 @@ from .interp import Interp
 from .model import Env, Heap, PyObj
 from .stmts import StmtMixin
 from .dictiter import DictIterMixin
+from .dispatch import DispatchMixin
 from .sym import NONE, TInt, TNone, TOpt, TRef, Unsupported, V
 
 
-class Machine(Interp, StmtMixin, CallMixin, CompMixin, DictIterMixin):
+class Machine(Interp, StmtMixin, CallMixin, CompMixin, DictIterMixin, DispatchMixin):
     pass
 
 
